@@ -231,7 +231,8 @@ def _convert_library_call(node: ast.Call) -> libsbml.ASTNode:
         if (typ := UNARY.get(attr)) is not None:
             _check_arity(attr, node, 1)
             return _unary_node(typ, node.args[0])
-        if (typ := BINARY.get(attr)) is not None:
+        # BINARY holds numpy's names: math.remainder is the IEEE remainder, not rem
+        if parent != "math" and (typ := BINARY.get(attr)) is not None:
             _check_arity(attr, node, 2)
             sbml_node = libsbml.ASTNode(typ)
             sbml_node.addChild(_convert_node(node.args[0]))
